@@ -802,6 +802,72 @@ fn search_time(what: &str) -> (usize, Option<Value>) {
     }
     (n, None)
 }
+/// C13: requests with two or more simultaneous defects; the kind (and status) reported must be that of the earliest failing rule. BOUNDED (fixed list).
+fn search_precedence() -> (usize, Option<Value>) {
+    use scratchstack_aws_signature::SignatureError;
+    let mut n = 0;
+    let (ts, now) = ts_now();
+    let base = || Req { method: "GET", path: "/".into(), query: "".into(), headers: vec![("Host".into(), "example.amazonaws.com".into())], body: vec![] };
+    let signed = |f: &dyn Fn(&mut Req)| -> Req { let mut r = base(); f(&mut r); sign_header(&mut r, &ts, "us-east-1", "service", false, b"").unwrap(); r };
+    let mut cases: Vec<(&str, Req, DateTime<Utc>, &str, SignatureOptions)> = Vec::new();
+    // rule 1 before rule 4: bad path and bad query
+    { let mut r = signed(&|_| {}); r.path = "/a/%zz".into(); r.query = "x=%zz".into(); cases.push(("bad path + bad query", r, now, "InvalidURIPath", SignatureOptions::default())); }
+    // rule 4 before rule 5: bad query and no carrier at all
+    { let mut r = base(); r.query = "x=%zz".into(); cases.push(("bad query + no carrier", r, now, "MalformedQueryString", SignatureOptions::default())); }
+    // rule 5 before everything later: both carriers, expired
+    { let mut r = signed(&|_| {}); r.query = "X-Amz-Algorithm=AWS4-HMAC-SHA256".into(); cases.push(("both carriers + expired", r, now + chrono::Duration::hours(5), "SignatureDoesNotMatch", SignatureOptions::default())); }
+    { let r = base(); cases.push(("no carrier", r, now, "MissingAuthenticationToken", SignatureOptions::default())); }
+    // rule 6 before rule 8 / 9: header without Signature= and with a bad date
+    { let mut r = signed(&|_| {}); for h in r.headers.iter_mut() { if h.0 == "Authorization" { h.1 = h.1.split(", Signature=").next().unwrap().to_string(); } if h.0 == "X-Amz-Date" { h.1 = "yesterday".into(); } }
+      cases.push(("missing Signature parameter + bad date", r, now, "IncompleteSignature", SignatureOptions::default())); }
+    // rule 7a before 7d: wrong algorithm and missing parameters on the query carrier
+    { let mut r = base(); r.query = "X-Amz-Algorithm=AWS4-HMAC-SHA1".into(); cases.push(("query carrier: wrong algorithm + nothing else", r, now, "MissingAuthenticationToken", SignatureOptions::default())); }
+    { let mut r = base(); r.query = "X-Amz-Algorithm=AWS4-HMAC-SHA256&X-Amz-Date=garbage".into(); cases.push(("query carrier: missing parameters + bad date", r, now, "IncompleteSignature", SignatureOptions::default())); }
+    // rule 8 before rule 9: host not signed and bad date
+    { let mut r = signed(&|_| {}); for h in r.headers.iter_mut() { if h.0 == "Authorization" { h.1 = h.1.replace("SignedHeaders=host;x-amz-date", "SignedHeaders=x-amz-date"); } if h.0 == "X-Amz-Date" { h.1 = "20150830".into(); } }
+      cases.push(("host unsigned + bad date", r, now, "SignatureDoesNotMatch", SignatureOptions::default())); }
+    // rule 9 before rule 10: bad date format and (whatever instant) far from now
+    { let mut r = signed(&|_| {}); for h in r.headers.iter_mut() { if h.0 == "X-Amz-Date" { h.1 = "2015-08-30 12:36:00".into(); } } cases.push(("bad date format + stale", r, now + chrono::Duration::days(3), "IncompleteSignature", SignatureOptions::default())); }
+    // rule 10/11 before rule 12: expired and credential with four parts
+    { let mut r = signed(&|_| {}); for h in r.headers.iter_mut() { if h.0 == "Authorization" { h.1 = h.1.replace("/aws4_request", ""); } } cases.push(("expired + credential arity", r, now + chrono::Duration::hours(1), "SignatureDoesNotMatch", SignatureOptions::default())); }
+    // rule 12 before rule 13: arity and wrong region (fresh)
+    { let mut r = signed(&|_| {}); for h in r.headers.iter_mut() { if h.0 == "Authorization" { h.1 = h.1.replace("us-east-1/service/aws4_request", "eu-west-9/service"); } } cases.push(("credential arity + wrong region", r, now, "IncompleteSignature", SignatureOptions::default())); }
+    { let mut r = signed(&|_| {}); for h in r.headers.iter_mut() { if h.0 == "Authorization" { h.1 = h.1.replace("/aws4_request", "/aws4_request/extra"); } } cases.push(("credential with six parts", r, now, "IncompleteSignature", SignatureOptions::default())); }
+    // rule 13 before the signature: wrong region and wrong signature
+    { let mut r = signed(&|_| {}); for h in r.headers.iter_mut() { if h.0 == "Authorization" { h.1 = h.1.replace("us-east-1", "eu-west-9"); h.1.push('0'); } } cases.push(("wrong region + wrong signature", r, now, "SignatureDoesNotMatch", SignatureOptions::default())); }
+    // form folding: unknown charset is a 400 InvalidBodyEncoding; a body too large for the rebuilt URI is a 400 MalformedQueryString
+    { let mut r = base(); r.method = "POST"; r.headers.push(("Content-Type".into(), "application/x-www-form-urlencoded; charset=klingon".into())); r.body = b"a=b".to_vec();
+      sign_header(&mut r, &ts, "us-east-1", "service", false, b"").unwrap(); cases.push(("unknown charset", r, now, "InvalidBodyEncoding", SignatureOptions::url_encode_form())); }
+    { let mut r = base(); r.method = "POST"; r.headers.push(("Content-Type".into(), "application/x-www-form-urlencoded".into())); r.body = format!("a={}", "b".repeat(70_000)).into_bytes();
+      sign_header(&mut r, &ts, "us-east-1", "service", false, b"").unwrap(); cases.push(("70 000 byte form body", r, now, "MalformedQueryString", SignatureOptions::url_encode_form())); }
+    for (name, r, at, expect, opt) in cases.iter() {
+        n += 1;
+        let res = validate(r, *at, "us-east-1", "service", *opt);
+        let ok = match &res { Err(e) => e.starts_with(&format!("{}:", expect)), Ok(_) => false };
+        if !ok {
+            return (n, Some(json!({"fn": "sigv4_validate_request", "case": format!("precedence: {}", name), "expected_kind": expect, "real": format!("{:?}", res)})));
+        }
+    }
+    // taxonomy: kind fixes code and status (400 malformed, 403 authentication, 500 infrastructure only)
+    use scratchstack_errors::ServiceError;
+    let io = std::io::Error::new(std::io::ErrorKind::Other, "x");
+    let table: Vec<(SignatureError, &str, u16)> = vec![
+        (SignatureError::ExpiredToken("".into()), "ExpiredToken", 403), (SignatureError::IO(io), "InternalFailure", 500),
+        (SignatureError::InternalServiceError("x".into()), "InternalFailure", 500), (SignatureError::InvalidBodyEncoding("".into()), "InvalidBodyEncoding", 400),
+        (SignatureError::InvalidClientTokenId("".into()), "InvalidClientTokenId", 403), (SignatureError::InvalidContentType("".into()), "InvalidContentType", 403),
+        (SignatureError::InvalidRequestMethod("".into()), "InvalidRequestMethod", 400), (SignatureError::InvalidURIPath("".into()), "InvalidURIPath", 400),
+        (SignatureError::IncompleteSignature("".into()), "IncompleteSignature", 400), (SignatureError::MalformedQueryString("".into()), "MalformedQueryString", 400),
+        (SignatureError::MissingAuthenticationToken("".into()), "MissingAuthenticationToken", 400), (SignatureError::SignatureDoesNotMatch(None), "SignatureDoesNotMatch", 403),
+    ];
+    for (e, code, status) in table.iter() {
+        n += 1;
+        if e.error_code() != *code || e.http_status().as_u16() != *status {
+            return (n, Some(json!({"fn": "SignatureError::error_code/http_status", "kind": kind(e), "expected": [code, status], "real": [e.error_code(), e.http_status().as_u16()]})));
+        }
+    }
+    (n, None)
+}
+
 /// C05: requirement sets built through VecSignedHeaderRequirements; the request signs only host and x-amz-date
 fn search_requirements() -> (usize, Option<Value>) {
     let mut n = 0;
@@ -1206,6 +1272,9 @@ fn searches_for(pid: &str, strict_d6: bool) -> Vec<(&'static str, (usize, Option
     }
     if all || pid == "C14" {
         v.push(("provider_discipline", search_provider()));
+    }
+    if all || pid == "C13" {
+        v.push(("precedence", search_precedence()));
     }
     if all || pid == "C18" {
         v.push(("determinism", search_determinism()));
